@@ -278,6 +278,7 @@ class CSSMediaRule(cssrule.CSSRuleRules):
 
     @name.setter
     def name(self, name):
+        self._checkReadonly()
         if isinstance(name, str) or name is None:
             # "" or ''
             if not name:
